@@ -1,6 +1,7 @@
 import BppProofs.Lemmas.Rand
 import BppProofs.Lemmas.RandRcont
 import BppProofs.Lemmas.RandRcontTotal
+import BppProofs.Lemmas.RandWalk
 import BppProofs.Lemmas.RandLaw
 import BppProofs.Lemmas.RandSampleLaw
 import BppProofs.Lemmas.RandMonteCarlo
@@ -243,6 +244,65 @@ theorem rcont2_rejects_iff (nrowt ncolt : List Nat) (picks : List (List Int)) :
 to depend on the generator state -/
 example : WalkInSupport startWalk := startWalk_inSupport
 example : (RandGen.rcont2G startWalk [4, 6, 5] [7, 8] ()).1 = .ok [[2, 2], [3, 3], [2, 3]] := by decide
+
+/-- `rcont2_walk_terminates` — the `do … while (true)` walk of one cell, in the terms of its
+transcription `BppModel/RandWalk.lean` (control flow of ContingencyTableGenerator.cpp:99-163 over an
+abstract non-negative probability mass `x0` at the starting value; real arithmetic): for every cell
+the book-keeping can present (`0 ≤ ia, id ≤ ie`, `0 < ie`), every first threshold `dummy`, and ONE
+further uniform draw `u ≤ 1` for the restart, the walk returns — after at most one restart, never
+running into the model's iteration bound — and the value it returns is one the abstraction of
+`rcont2` admits (`canReach`, i.e. inside the support of the cell: `rcont2_cell_support`).  Why one
+restart suffices: an exhausted pass has added up the total `S` of its terms; the next threshold is
+`S·u ≤ S`, and the next pass adds the same terms in the same order (`sweep_replay`).
+Not covered: `long double` rounding (the argument only needs `fl(S·u) ≤ S` and the repeatability of
+the pass, which hold in floating point too, but that is not proved here), and the tie of this
+transcription to the code (reading; clause `terminates` on executions). -/
+theorem rcont2_walk_terminates (ia id ie : Int) (x0 dummy u : ℝ) (us : List ℝ)
+    (ha : 0 ≤ ia) (hd : 0 ≤ id) (hie : 0 < ie) (hae : ia ≤ ie) (hde : id ≤ ie) (hx0 : 0 ≤ x0) (hu : u ≤ 1) :
+    ∃ v, walk ia id (ie - ia - id) (startCell ia id ie) x0 dummy (u :: us) = .ok v ∧
+      canReach ia id (ie - ia - id) (startCell ia id ie) v = true := by
+  obtain ⟨s0, s1, s2, s3⟩ := startCell_bound ha hd hie hae hde
+  set st := startCell ia id ie with hst
+  have hreach : ∀ v, InSupp ia id (ie - ia - id) v → canReach ia id (ie - ia - id) st v = true :=
+    fun v hv => (canReach_iff (ii := ie - ia - id) s0 (by omega) s2 s3).mpr hv
+  have hstart : InSupp ia id (ie - ia - id) st := ⟨s0, by omega, s2, s3⟩
+  have hinv : WalkInv ia id (ie - ia - id) ⟨st, st, x0, x0, x0⟩ :=
+    ⟨s0, by show 0 ≤ ie - ia - id + st; omega, le_refl _, s2, s3, hx0, hx0, hx0⟩
+  have hfuel : (ia - st) + st + 2 ≤ ((walkFuel ia id : Nat) : Int) := by
+    unfold walkFuel; push_cast
+    rw [Int.toNat_of_nonneg ha, Int.toNat_of_nonneg hd]; omega
+  have hok := fun d => sweep_ok ia id (ie - ia - id) d (walkFuel ia id) ⟨st, st, x0, x0, x0⟩ hinv hfuel
+  rw [walk]
+  split
+  · exact ⟨st, rfl, hreach st hstart⟩
+  · have h1 := hok dummy
+    cases hs : sweep ia id (ie - ia - id) dummy (walkFuel ia id) ⟨st, st, x0, x0, x0⟩ with
+    | hit v => rw [hs] at h1; exact ⟨v, rfl, hreach v h1⟩
+    | fuel => rw [hs] at h1; exact False.elim h1
+    | exhausted S =>
+      rw [hs] at h1
+      have hS : 0 ≤ S := h1
+      have hle : S * u ≤ S := by nlinarith
+      dsimp only
+      rw [walk]
+      split
+      · exact ⟨st, rfl, hreach st hstart⟩
+      · rename_i hnot
+        have h2 := hok (S * u)
+        rcases sweep_replay ia id (ie - ia - id) dummy (S * u) S _ _ hs hle with ⟨v, hv⟩ | ⟨_, hS0⟩
+        · simp only [smul] at hv ⊢
+          rw [hv] at h2 ⊢
+          exact ⟨v, rfl, hreach v h2⟩
+        · exfalso; apply hnot
+          simp only [Scalar.geb, ScalarReal.leb_iff, smul]
+          have : S = x0 := hS0
+          rw [← this]; exact hle
+
+/-! non-vacuity: the cell `ia = 5, id = 3, ie = 6` (first cell of rows (5,1), columns (3,3)): start 3 -/
+example : ∃ v, walk 5 3 (6 - 5 - 3) (startCell 5 3 6) (1 / 2 : ℝ) (9 / 10) [1 / 3] = .ok v ∧
+    canReach 5 3 (6 - 5 - 3) (startCell 5 3 6) v = true :=
+  rcont2_walk_terminates 5 3 6 (1 / 2) (9 / 10) (1 / 3) [] (by norm_num) (by norm_num) (by norm_num) (by norm_num)
+    (by norm_num) (by norm_num) (by norm_num)
 
 /-- the unrepaired starting value `ia * (size_t)(id/ie + 0.5)`: for rows (5,1) and columns (3,3)
 the very first cell starts at `nlm = 5 > id = 3` and reads `fact_[id - nlm]` out of bounds, for
